@@ -488,3 +488,10 @@ def run(rep: Report, tier: str):
     rep.units = {"opcode_classes": len(sums), "paths": sum(len(s.paths) for s in sums), "pickletools_rows": len(pickletools.opcodes)}
     check_stack_effect(repo, rep, sums)
     check_memo(repo, rep, sums)
+
+    # interpreted last: the rules above stand on their own if the decompiler cannot be interpreted over an input
+    from ..vmworlds import C09_KEYS, report as _vm_report
+
+    rep.rule("C09.step-worlds", "the interpreted Interpreter, stepped over the corpus, has the reference machine's stack depth, mark positions and memo keys after every opcode", 1)
+    _vm_report(repo, rep, "C09.step-worlds", tier, C09_KEYS)
+
